@@ -154,17 +154,15 @@ def run(tier, seed, replay=None):
     for msg in v['infra']:
         ck.note('infrastructure: ' + msg)
     for idx, rec in v['rejected'][:8]:
-        # confirm by re-running exactly the case
-        ci = rec.get('ci', 1) - 1
-        case = cases[ci]
-        c2 = os.path.join(wd, 'confirm.txt'); t2 = os.path.join(wd, 'confirm.ndjson')
-        write_cases(c2, [case]); sh([exe, c2, t2], timeout=60)
-        v2 = validate_trace(wd, 'Trace_Scalar', 'Trace_Scalar.cfg', t2, nsplit=1)
-        if v2['rejected']:
+        ci = rec.get('ci', 1)
+        case = cases[ci - 1]
+        how = vlib.confirm_case(wd, 'Trace_Scalar', 'Trace_Scalar.cfg', lambda cp, tp: [exe, cp, tp], write_cases, cases, ci)
+        if how:
             key = 'op=%s form=%s alias=%s a=0x%x b=0x%x' % (rec.get('op', 'pred'), rec.get('form'), rec.get('alias'), case[1], case[2])
-            ck.violation(key, 'recorded result %s is not the field result' % (rec.get('r') or rec), dict(cases=[list(case)], event=rec))
+            ck.violation(key + (vlib.HIST if how == 'history' else ''), 'recorded result %s is not the field result' % (rec.get('r') or rec),
+                         dict(cases=[list(x) for x in (cases[:ci] if how == 'history' else [case])], event=rec))
         else:
-            ck.note('rejection at event %d not reproduced on re-run; ignored as flaky' % idx)
+            ck.note('rejection at event %d not reproduced on re-run (neither alone nor after its process history)' % idx)
     if len(v['rejected']) > 8:
         ck.note('%d further rejected records not individually confirmed' % (len(v['rejected']) - 8))
     ck.cov['cases'] = len(cases)
